@@ -78,13 +78,21 @@ Definition is_lower (d : decls) (a : name) (p : nat) (lo : expr) : bool :=
 Definition start_norm (d : decls) (a : name) (p : nat) (lo : expr) : expr :=
   if is_lower d a p lo then match nth_error (d a) p with Some (lb, _) => ELit lb | None => lo end else lo.
 
+(* Variants of the code: each flag says that the corresponding repair of props/C06/fix.patch is present
+   in the tree under test (determined on every run by probing the implementation, see check.py);
+   `unfixed` is the code as found. *)
+Record fixes := mkFixes { fx_shortcut : bool; fx_stride : bool; fx_redstore : bool }.
+Definition unfixed : fixes := mkFixes false false false.
+
 (* SymbolicMaths.equal is modelled as syntactic equality (the generators keep to normal forms);
    within one statement with the same number of preceding ranges the lengths are assumed equal, so
-   only start and step are compared; "same array and both at their lower bound" returns True at once
-   WITHOUT comparing dimensions or steps (array_mixin.py:769-771). *)
-Definition same_range (d : decls) (a : name) (p : nat) (lo st : expr)
+   only start and step are compared; unfixed: "same array and both at their lower bound" returns True at
+   once WITHOUT comparing dimensions or steps (array_mixin.py:769-771); fixed: it also requires the same
+   dimension and equal steps. *)
+Definition same_range (fx : fixes) (d : decls) (a : name) (p : nat) (lo st : expr)
                       (b : name) (q : nat) (lo' st' : expr) : bool :=
-  if is_lower d a p lo && Nat.eqb a b && is_lower d b q lo' then true
+  if is_lower d a p lo && Nat.eqb a b && is_lower d b q lo' &&
+     (if fx_shortcut fx then Nat.eqb p q && expr_eqb st st' else true) then true
   else expr_eqb (start_norm d a p lo) (start_norm d b q lo') && expr_eqb st st'.
 
 (* ================================================================== range -> loop index rewriting *)
@@ -109,11 +117,13 @@ Fixpoint lower (r : ridx_t) (e : aexpr) : expr :=
   | AIntr2 f l r' => EIntr (intr_of f) [lower r l; lower r r']
   end.
 
-(* arrayassignment2loops_trans.py:131-145 *)
-Definition ridx_of (d : decls) (idx : name) (a : name) (p : nat) (lo st : expr) : ridx_t :=
+(* arrayassignment2loops_trans.py:131-145; fixed: ranges whose strides are not known to be equal are
+   indexed by element number, start' + (idx - start)/step * step' *)
+Definition ridx_of (fx : fixes) (d : decls) (idx : name) (a : name) (p : nat) (lo st : expr) : ridx_t :=
   fun b q lo' st' =>
-    if same_range d a p lo st b q lo' st' then EVar idx
-    else EBin Add (EVar idx) (EBin Sub lo' lo).
+    if same_range fx d a p lo st b q lo' st' then EVar idx
+    else if negb (fx_stride fx) || expr_eqb st' st then EBin Add (EVar idx) (EBin Sub lo' lo)
+    else EBin Add lo' (EBin Mul (EBin Div (EBin Sub (EVar idx) lo) st) st').
 
 (* validate, restricted to this syntax: the lhs has a range and all accessors with ranges have the
    same number of ranges (here: one) *)
@@ -121,11 +131,11 @@ Definition aa_accept (a : aassign) : bool :=
   Nat.eqb (n_ranges (aa_ix a)) 1 &&
   forallb (fun acc => Nat.leb (n_ranges (snd acc)) 1) (accessors (aa_rhs a)).
 
-Definition aa_apply (d : decls) (idx : name) (a : aassign) : option (list stmt) :=
+Definition aa_apply (fx : fixes) (d : decls) (idx : name) (a : aassign) : option (list stmt) :=
   if aa_accept a then
     match range_pos 0 (aa_ix a) with
     | Some (p, lo, hi, st) =>
-        let r := ridx_of d idx (aa_arr a) p lo st in
+        let r := ridx_of fx d idx (aa_arr a) p lo st in
         Some [SDo idx lo hi st [SAssign (aa_arr a) (lower_ixs r (aa_arr a) 0 (aa_ix a)) (lower r (aa_rhs a))]]
     | None => None
     end
@@ -262,7 +272,7 @@ Definition red_sem (k : rkind) (arr : aexpr) (mask : option aexpr) (s : store) :
 Definition tgt_ref (x : name) (xi : list expr) : expr := match xi with [] => EVar x | _ => EIdx x xi end.
 
 (* array_reduction_base_trans.py:178-270: the loop part, writing into x(xi) *)
-Definition red_loop (d : decls) (idx : name) (x : name) (xi : list expr) (k : rkind)
+Definition red_loop (fx : fixes) (d : decls) (idx : name) (x : name) (xi : list expr) (k : rkind)
                     (arr : aexpr) (mask : option aexpr) : option (list stmt) :=
   match accessors arr with
   | (f, fix_) :: _ =>
@@ -272,7 +282,7 @@ Definition red_loop (d : decls) (idx : name) (x : name) (xi : list expr) (k : rk
       then
         match range_pos 0 fix_ with
         | Some (p, lo, hi, st) =>
-            let r := ridx_of d idx f p lo st in
+            let r := ridx_of fx d idx f p lo st in
             let body := SAssign x xi (red_op k (tgt_ref x xi) (lower r arr)) in
             Some [SAssign x xi (red_init k);
                   SDo idx lo hi st [match mask with Some m => SIf (lower r m) [body] [] | None => body end]]
@@ -296,24 +306,24 @@ Fixpoint subst_var (h : name) (r : expr) (e : expr) : expr :=
 (* the whole statement  x(xi) = C[RED(arr, mask)]:  C is `ctx` with the variable `hole` standing for
    the call (hole is not otherwise used); ctx = None when the rhs is just the call.
    `increment` = the lhs symbol occurs on the rhs (then a temporary tmp receives the reduction).
-   Today's code adds NO final assignment when the rhs is just the call, even when the reduction was
-   accumulated into the temporary (array_reduction_base_trans.py:271-281). *)
+   Unfixed: NO final assignment when the rhs is just the call, even when the reduction was accumulated
+   into the temporary (array_reduction_base_trans.py:271-281); fixed: x(xi) = tmp is added. *)
 Definition name_in_aexpr_opt (x : name) (m : option aexpr) : bool :=
   match m with Some e => amentions x e | None => false end.
 
 Definition red_increment (x : name) (arr : aexpr) (mask : option aexpr) (ctx : option expr) : bool :=
   amentions x arr || name_in_aexpr_opt x mask || match ctx with Some c => mentions x c | None => false end.
 
-Definition red_apply (d : decls) (idx tmp : name) (x : name) (xi : list expr) (k : rkind)
+Definition red_apply (fx : fixes) (d : decls) (idx tmp : name) (x : name) (xi : list expr) (k : rkind)
                      (arr : aexpr) (mask : option aexpr) (ctx : option expr) (hole : name)
   : option (list stmt) :=
   let inc := red_increment x arr mask ctx in
   let nx := if inc then tmp else x in
   let nxi := if inc then [] else xi in
-  match red_loop d idx nx nxi k arr mask with
+  match red_loop fx d idx nx nxi k arr mask with
   | Some loop =>
       match ctx with
-      | None => Some loop
+      | None => if fx_redstore fx && inc then Some (loop ++ [SAssign x xi (tgt_ref nx nxi)]) else Some loop
       | Some c => Some (loop ++ [SAssign x xi (subst_var hole (tgt_ref nx nxi) c)])
       end
   | None => None
